@@ -23,11 +23,11 @@ UNITS_LOCAL = {"C01": [
          budget={"quick": 200, "thorough": 2400}, rule="default pipe (256 slots): " + _RULE, assumptions=_ASSUME),
     Unit("pfor_internal_pipe1", ["harness/C01_pfor_mc.cpp"], repo_src=_INT, cxx="g++", flags=TSAN_INSTR,
          defs=["RKCOMMON_TASKING_INTERNAL", "RKCOMMON_VERIF_SPIN_COUNT=2", "RKCOMMON_VERIF_PIPESIZE_LOG2=0"], mcsched=True, engine="mcsched",
-         args={"quick": ["--only-prefix", "pf_T2"], "thorough": ["--only-prefix", "pf_T2"]},
+         args={"quick": ["--only-prefix", "pf_T2", "--only-prefix", "spf_T2"], "thorough": ["--only-prefix", "pf_T2", "--only-prefix", "spf_T2"]},
          budget={"quick": 150, "thorough": 1500}, rule="1-slot pipes (hook H2) with a pool of 2, so the pipe-full run-inline path of SplitAndAddTask is taken: " + _RULE, assumptions=_ASSUME),
     Unit("pfor_internal_pipe2", ["harness/C01_pfor_mc.cpp"], repo_src=_INT, cxx="g++", flags=TSAN_INSTR,
          defs=["RKCOMMON_TASKING_INTERNAL", "RKCOMMON_VERIF_SPIN_COUNT=2", "RKCOMMON_VERIF_PIPESIZE_LOG2=1"], mcsched=True, engine="mcsched",
-         args={"quick": ["--only-prefix", "pf_T3"], "thorough": ["--only-prefix", "pf_T3"]},
+         args={"quick": ["--only-prefix", "pf_T3", "--only-prefix", "spf_T3"], "thorough": ["--only-prefix", "pf_T3", "--only-prefix", "spf_T3"]},
          budget={"quick": 150, "thorough": 1500}, rule="2-slot pipes (hook H2) with a pool of 3 (6 partitions), pipe-full path: " + _RULE, assumptions=_ASSUME),
     Unit("pipe", ["harness/C01_pipe_mc.cpp"], cxx="g++", flags=TSAN_INSTR, mcsched=True, engine="mcsched",
          budget={"quick": 150, "thorough": 900},
